@@ -814,3 +814,340 @@ Proof.
   - exact Gp.
   - exact Gq.
 Qed.
+
+Lemma ret_keep1 (thrs : nat -> tst) t T' (nr l : nat -> nat) q :
+  popping (pc T') = false -> popping (pc (thrs t)) = false ->
+  ret_ok (thrs 0) nr l q -> ret_ok (upd thrs t T' 0) nr l q.
+Proof.
+  intros E1 E2 H. unfold ret_ok in *. destruct (Nat.eq_dec 0 t) as [<-|Ne].
+  - rewrite upd_same. rewrite E1. rewrite E2 in H. exact H.
+  - rewrite upd_other by assumption. exact H.
+Qed.
+
+Lemma ret_keep2 (thrs : nat -> tst) t T' (nr l : nat -> nat) q :
+  popping (pc T') = popping (pc (thrs t)) -> qi T' = qi (thrs t) ->
+  ret_ok (thrs 0) nr l q -> ret_ok (upd thrs t T' 0) nr l q.
+Proof.
+  intros E1 E2 H. unfold ret_ok in *. destruct (Nat.eq_dec 0 t) as [<-|Ne].
+  - rewrite upd_same. rewrite E1, E2. exact H.
+  - rewrite upd_other by assumption. exact H.
+Qed.
+
+Lemma uses_same npr T' T q :
+  pushing (pc T') = pushing (pc T) -> qi T' = qi T -> prog T' = prog T -> uses npr T' q -> uses npr T q.
+Proof. unfold uses. intros E1 E2 E3. rewrite E1, E2, E3. auto. Qed.
+
+Lemma uses_nopush npr T' T q :
+  pushing (pc T') = false -> prog T' = prog T -> uses npr T' q -> uses npr T q.
+Proof. unfold uses. intros E1 E3. rewrite E1, E3. intros [[H _]|H]; [discriminate|right; exact H]. Qed.
+
+Lemma vis_snoc c npr k : vis c npr (S k) = vis c npr k ++ [(c + k) mod npr].
+Proof. unfold vis. rewrite seq_snoc, map_app. reflexivity. Qed.
+
+Ltac own_same Hpc := unfold own_list, pcl; cbn [pc prog node hd with_pc]; rewrite Hpc; cbn [pushing popping].
+Ltac nochange := let m := fresh "m" in let Hm := fresh "Hm" in intros m Hm; exfalso; apply Hm; reflexivity.
+Ltac own_nd T OT Hpc := match goal with |- NoDup ?l => replace l with (own_list T); [exact OT|own_same Hpc; reflexivity] end.
+Ltac own_inc T Hpc := match goal with |- incl ?l _ => replace l with (own_list T); [apply incl_refl|own_same Hpc; reflexivity] end.
+
+Theorem linv_step x t : GInv x -> GInv (lstep x t).
+Proof.
+  intros G. unfold lstep, step. remember (thr (base x) t) as T eqn:HT.
+  assert (LT := g_loc x G t). rewrite <- HT in LT. unfold local_ok in LT.
+  assert (CT : t <> 0 -> producer_pc (pc T) /\ pushonly (prog T)) by (rewrite HT; apply (g_cons x G)).
+  assert (OT : NoDup (own_list T)) by (rewrite HT; apply (g_own_nd x G)).
+  assert (QT : qi T < np (base x)) by (rewrite HT; apply (g_qi x G)).
+  assert (Np := g_np x G).
+  assert (RK1 : forall T' q, popping (pc T') = false -> popping (pc T) = false -> q < np (base x) ->
+                ret_ok (upd (thr (base x)) t T' 0) (nret x) (lo x) q).
+  { intros T' q E1 E2 Hq. apply ret_keep1; auto; [rewrite <- HT; exact E2|apply (g_ret x G); exact Hq]. }
+  assert (RK2 : forall T' q, popping (pc T') = popping (pc T) -> qi T' = qi T -> q < np (base x) ->
+                ret_ok (upd (thr (base x)) t T' 0) (nret x) (lo x) q).
+  { intros T' q E1 E2 Hq. apply ret_keep2; auto; [rewrite <- HT; exact E1|rewrite <- HT; exact E2|apply (g_ret x G); exact Hq]. }
+  destruct (pc T) eqn:Hpc; cbn [fst].
+  - (* PData *)
+    apply (frame_step x t (with_pc T PNull) (counter (base x)) (nxt (base x))
+             (upd (dat (base x)) (node T) (arg T)) (nret x) (c0 x) (visits x) (qlog x) G); rewrite <- ?HT.
+    + nochange.
+    + intros m Hm. destruct (Nat.eq_dec m (node T)) as [->|Ne]; [|rewrite upd_other in Hm by assumption; congruence].
+      apply in_own_pushing. rewrite Hpc. reflexivity.
+    + rewrite Hpc; discriminate.
+    + cbn; discriminate.
+    + own_nd T OT Hpc.
+    + own_inc T Hpc.
+    + intros Ht. destruct (CT Ht). split; [exact I|assumption].
+    + intros q. apply uses_same; try reflexivity. cbn. rewrite Hpc. reflexivity.
+    + exact QT.
+    + intros q Hq. apply RK2; auto; cbn; rewrite ?Hpc; reflexivity.
+    + apply (g_qlog x G).
+    + left; auto.
+    + unfold local_ok. cbn. apply upd_same.
+  - (* PNull *)
+    apply (frame_step x t (with_pc T PLoadTail) (counter (base x)) (upd (nxt (base x)) (node T) 0)
+             (dat (base x)) (nret x) (c0 x) (visits x) (qlog x) G); rewrite <- ?HT.
+    + intros m Hm. destruct (Nat.eq_dec m (node T)) as [->|Ne]; [|rewrite upd_other in Hm by assumption; congruence].
+      apply in_own_pushing. rewrite Hpc. reflexivity.
+    + nochange.
+    + rewrite Hpc; discriminate.
+    + cbn; discriminate.
+    + own_nd T OT Hpc.
+    + own_inc T Hpc.
+    + intros Ht. destruct (CT Ht). split; [exact I|assumption].
+    + intros q. apply uses_same; try reflexivity. cbn. rewrite Hpc. reflexivity.
+    + exact QT.
+    + intros q Hq. apply RK2; auto; cbn; rewrite ?Hpc; reflexivity.
+    + apply (g_qlog x G).
+    + left; auto.
+    + unfold local_ok. cbn. split; [exact LT|apply upd_same].
+  - (* PLoadTail *)
+    match goal with |- GInv {| base := set_thr _ _ ?X |} =>
+      apply (frame_step x t X (counter (base x)) (nxt (base x)) (dat (base x)) (nret x) (c0 x) (visits x) (qlog x) G);
+        rewrite <- ?HT end.
+    + nochange.
+    + nochange.
+    + rewrite Hpc; discriminate.
+    + cbn; discriminate.
+    + own_nd T OT Hpc.
+    + own_inc T Hpc.
+    + intros Ht. destruct (CT Ht). split; [exact I|assumption].
+    + intros q. apply uses_same; try reflexivity. cbn. rewrite Hpc. reflexivity.
+    + exact QT.
+    + intros q Hq. apply RK2; auto; cbn; rewrite ?Hpc; reflexivity.
+    + apply (g_qlog x G).
+    + left; auto.
+    + unfold local_ok. cbn. destruct LT. repeat split; auto.
+  - (* PStoreTail *)
+    subst T. apply pstore_inv; auto.
+  - (* PLink *)
+    subst T. apply plink_inv; auto.
+  - (* CRead1 *)
+    assert (T0 : t = 0).
+    { destruct (Nat.eq_dec t 0) as [|Ne]; auto. destruct (CT Ne) as [[] _]. }
+    destruct LT as [LT1 LT2].
+    destruct (it T) eqn:Hit.
+    + match goal with |- GInv {| base := set_thr _ _ ?X |} =>
+        apply (frame_step x t X (counter (base x)) (nxt (base x)) (dat (base x)) (nret x)
+                 (counter (base x)) [] (qlog x) G); rewrite <- ?HT end.
+      * nochange.
+      * nochange.
+      * rewrite Hpc; discriminate.
+      * cbn; discriminate.
+      * own_nd T OT Hpc.
+      * own_inc T Hpc.
+      * intros Ht. contradiction.
+      * intros q. apply uses_nopush; reflexivity.
+      * cbn. apply Nat.mod_upper_bound. lia.
+      * intros q Hq. apply RK1; auto; rewrite ?Hpc; reflexivity.
+      * apply (g_qlog x G).
+      * right; exact T0.
+      * unfold local_ok, cnt_ok. cbn. rewrite !Nat.add_0_r. repeat split; auto.
+    + match goal with |- GInv {| base := set_thr _ _ ?X |} =>
+        apply (frame_step x t X (counter (base x)) (nxt (base x)) (dat (base x)) (nret x)
+                 (c0 x) (visits x) (qlog x) G); rewrite <- ?HT end.
+      * nochange.
+      * nochange.
+      * rewrite Hpc; discriminate.
+      * cbn; discriminate.
+      * own_nd T OT Hpc.
+      * own_inc T Hpc.
+      * intros Ht. contradiction.
+      * intros q. apply uses_nopush; reflexivity.
+      * cbn. apply Nat.mod_upper_bound. lia.
+      * intros q Hq. apply RK1; auto; rewrite ?Hpc; reflexivity.
+      * apply (g_qlog x G).
+      * left; auto.
+      * destruct (LT2 ltac:(lia)) as [C1 C2].
+        unfold local_ok, cnt_ok. cbn. rewrite Nat.add_0_r. repeat split; auto. rewrite C1. reflexivity.
+  - (* CRead2 *)
+    match goal with |- GInv {| base := set_thr _ _ ?X |} =>
+      apply (frame_step x t X (counter (base x)) (nxt (base x)) (dat (base x)) (nret x) (c0 x) (visits x) (qlog x) G);
+        rewrite <- ?HT end.
+    + nochange.
+    + nochange.
+    + rewrite Hpc; discriminate.
+    + cbn; discriminate.
+    + own_nd T OT Hpc.
+    + own_inc T Hpc.
+    + intros Ht. destruct (CT Ht) as [[] _].
+    + intros q. apply uses_nopush; reflexivity.
+    + exact QT.
+    + intros q Hq. apply RK1; auto; rewrite ?Hpc; reflexivity.
+    + apply (g_qlog x G).
+    + left; auto.
+    + unfold local_ok, cnt_ok in *. cbn. split; auto.
+  - (* CWrite *)
+    assert (T0 : t = 0).
+    { destruct (Nat.eq_dec t 0) as [|Ne]; auto. destruct (CT Ne) as [[] _]. }
+    apply (frame_step x t (with_pc T QHead) (S (cv T)) (nxt (base x)) (dat (base x)) (nret x)
+             (c0 x) (visits x) (qlog x) G); rewrite <- ?HT.
+    + nochange.
+    + nochange.
+    + rewrite Hpc; discriminate.
+    + cbn; discriminate.
+    + own_nd T OT Hpc.
+    + own_inc T Hpc.
+    + intros Ht. contradiction.
+    + intros q. apply uses_nopush; reflexivity.
+    + exact QT.
+    + intros q Hq. apply RK1; auto; rewrite ?Hpc; reflexivity.
+    + apply (g_qlog x G).
+    + right; exact T0.
+    + unfold local_ok, cnt_ok in *. cbn. destruct LT as [(C1 & C2 & C3 & C4) C5]. repeat split; auto. lia.
+  - (* QHead *)
+    match goal with |- GInv {| base := set_thr _ _ ?X |} =>
+      apply (frame_step x t X (counter (base x)) (nxt (base x)) (dat (base x)) (nret x) (c0 x) (visits x) (qlog x) G);
+        rewrite <- ?HT end.
+    + nochange.
+    + nochange.
+    + rewrite Hpc; discriminate.
+    + cbn; discriminate.
+    + own_nd T OT Hpc.
+    + own_inc T Hpc.
+    + intros Ht. destruct (CT Ht) as [[] _].
+    + intros q. apply uses_nopush; reflexivity.
+    + exact QT.
+    + intros q Hq. apply RK1; auto; rewrite ?Hpc; reflexivity.
+    + apply (g_qlog x G).
+    + left; auto.
+    + unfold local_ok, cnt_ok in *. cbn. split; auto. apply (g_head x G). exact QT.
+  - (* QNext *)
+    assert (T0 : t = 0).
+    { destruct (Nat.eq_dec t 0) as [|Ne]; auto. destruct (CT Ne) as [[] _]. }
+    destruct LT as [(C1 & C2 & C3 & C4) LTh].
+    destruct (nxt (base x) (hd T)) eqn:Hnx; cbn [fst].
+    + destruct (S (it T) <? np (base x)) eqn:Hlt; cbn [fst].
+      * apply Nat.ltb_lt in Hlt.
+        match goal with |- GInv {| base := set_thr _ _ ?X |} =>
+          apply (frame_step x t X (counter (base x)) (nxt (base x)) (dat (base x)) (nret x)
+                   (c0 x) (visits x ++ [qi T]) (qlog x) G); rewrite <- ?HT end.
+        -- nochange.
+        -- nochange.
+        -- rewrite Hpc; discriminate.
+        -- cbn; discriminate.
+        -- own_nd T OT Hpc.
+        -- own_inc T Hpc.
+        -- intros Ht. contradiction.
+        -- intros q. apply uses_nopush; reflexivity.
+        -- exact QT.
+        -- intros q Hq. apply RK1; auto; rewrite ?Hpc; reflexivity.
+        -- apply (g_qlog x G).
+        -- right; exact T0.
+        -- unfold local_ok. cbn. split; [exact Hlt|]. intros _. split; [lia|].
+           rewrite vis_snoc, C3, C2. reflexivity.
+      * apply (frame_step x t (next_op (np (base x)) T) (counter (base x)) (nxt (base x)) (dat (base x)) (nret x)
+                 (c0 x) (visits x ++ [qi T]) (qlog x) G); rewrite <- ?HT.
+        -- nochange.
+        -- nochange.
+        -- rewrite Hpc; discriminate.
+        -- apply next_op_not_plink.
+        -- rewrite own_next_op; auto. unfold pcl. rewrite Hpc. reflexivity.
+        -- rewrite own_next_op; [apply incl_refl|]. unfold pcl. rewrite Hpc. reflexivity.
+        -- intros Ht. contradiction.
+        -- intros q H. right. apply next_op_uses. exact H.
+        -- apply next_op_qi; auto.
+        -- intros q Hq. apply RK1; auto; try apply next_op_popping; rewrite ?Hpc; reflexivity.
+        -- apply (g_qlog x G).
+        -- right; exact T0.
+        -- match goal with |- local_ok ?X _ => apply (next_op_ok X T) end. exact Np.
+    + match goal with |- GInv {| base := set_thr _ _ ?X |} =>
+        apply (frame_step x t X (counter (base x)) (nxt (base x)) (dat (base x)) (nret x)
+                 (c0 x) (visits x) (qlog x) G); rewrite <- ?HT end.
+      * nochange.
+      * nochange.
+      * rewrite Hpc; discriminate.
+      * cbn; discriminate.
+      * own_nd T OT Hpc.
+      * own_inc T Hpc.
+      * intros Ht. contradiction.
+      * intros q. apply uses_nopush; reflexivity.
+      * exact QT.
+      * intros q Hq. apply RK1; auto; rewrite ?Hpc; reflexivity.
+      * apply (g_qlog x G).
+      * left; auto.
+      * unfold local_ok. cbn [pc base nodeat lo hi hd hn qi].
+        rewrite LTh in Hnx.
+        assert (lo x (qi T) < hi x (qi T)).
+        { destruct (Nat.eq_dec (lo x (qi T)) (hi x (qi T))) as [E|]; [|pose proof (g_ord x G _ QT); lia].
+          rewrite E in Hnx. rewrite (g_last x G _ QT) in Hnx. discriminate. }
+        destruct (g_link x G (qi T) (lo x (qi T)) QT ltac:(lia)) as [[A B]|[A B]]; [congruence|].
+        repeat split; auto; try congruence.
+        intros L. apply A. revert L.
+        match goal with |- linkingN ?s' _ -> _ =>
+          apply (linkingN_local (base x) s' t
+                   {| pc := QSetHead; qi := qi T; node := node T; arg := arg T; prev := prev T; hd := hd T;
+                      hn := S n; rdv := rdv T; it := it T; cv := cv T; prog := prog T; opi := opi T |}) end;
+          [reflexivity| |cbn; discriminate].
+        rewrite <- HT, Hpc. discriminate.
+  - (* QSetHead *)
+    subst T. apply qsethead_inv; auto.
+  - (* QRead *)
+    match goal with |- GInv {| base := set_thr _ _ ?X |} =>
+      apply (frame_step x t X (counter (base x)) (nxt (base x)) (dat (base x)) (nret x) (c0 x) (visits x) (qlog x) G);
+        rewrite <- ?HT end.
+    + nochange.
+    + nochange.
+    + rewrite Hpc; discriminate.
+    + cbn; discriminate.
+    + own_nd T OT Hpc.
+    + own_inc T Hpc.
+    + intros Ht. destruct (CT Ht) as [[] _].
+    + intros q. apply uses_nopush; reflexivity.
+    + exact QT.
+    + intros q Hq. apply RK2; auto; cbn; rewrite ?Hpc; reflexivity.
+    + apply (g_qlog x G).
+    + left; auto.
+    + unfold local_ok. cbn. apply LT.
+  - (* QWrite *)
+    apply (frame_step x t (with_pc T QUse) (counter (base x)) (nxt (base x))
+             (upd (dat (base x)) (hd T) (rdv T)) (nret x) (c0 x) (visits x) (qlog x) G); rewrite <- ?HT.
+    + nochange.
+    + intros m Hm. destruct (Nat.eq_dec m (hd T)) as [->|Ne]; [|rewrite upd_other in Hm by assumption; congruence].
+      apply in_own_popping. rewrite Hpc. reflexivity.
+    + rewrite Hpc; discriminate.
+    + cbn; discriminate.
+    + own_nd T OT Hpc.
+    + own_inc T Hpc.
+    + intros Ht. destruct (CT Ht) as [[] _].
+    + intros q. apply uses_nopush; reflexivity.
+    + exact QT.
+    + intros q Hq. apply RK2; auto; cbn; rewrite ?Hpc; reflexivity.
+    + apply (g_qlog x G).
+    + left; auto.
+    + unfold local_ok. cbn. rewrite upd_same. exact LT.
+  - (* QUse *)
+    assert (T0 : t = 0).
+    { destruct (Nat.eq_dec t 0) as [|Ne]; auto. destruct (CT Ne) as [[] _]. }
+    assert (OTT : own_list T = hd T :: pushed (prog T)).
+    { unfold own_list, pcl. rewrite Hpc. reflexivity. }
+    assert (Rt := g_ret x G). rewrite <- T0, <- HT in Rt. unfold ret_ok in Rt. rewrite Hpc in Rt. cbn [popping andb] in Rt.
+    apply (frame_step x t (next_op (np (base x)) T) (counter (base x)) (nxt (base x)) (dat (base x))
+             (upd (nret x) (qi T) (S (nret x (qi T)))) (c0 x) (visits x)
+             (qlog x ++ [(qi T, dat (base x) (hd T))]) G); rewrite <- ?HT.
+    + nochange.
+    + nochange.
+    + rewrite Hpc; discriminate.
+    + apply next_op_not_plink.
+    + rewrite own_next_op'. rewrite OTT in OT. inversion OT; auto.
+    + rewrite own_next_op', OTT. intros n Hn. right. exact Hn.
+    + intros Ht. contradiction.
+    + intros q H. right. apply next_op_uses. exact H.
+    + apply next_op_qi; auto.
+    + intros q Hq. unfold ret_ok. subst t. rewrite upd_same. rewrite next_op_popping. cbn [andb].
+      specialize (Rt q Hq). destruct (Nat.eqb_spec (qi T) q) as [<-|Nq].
+      * rewrite upd_same. lia.
+      * rewrite upd_other by auto. exact Rt.
+    + intros q Hq. specialize (Rt q Hq). destruct (Nat.eqb_spec (qi T) q) as [<-|Nq].
+      * rewrite qtag_snoc_same, upd_same, seq_snoc, map_app. cbn [map]. rewrite <- (g_qlog x G) by auto.
+        f_equal. rewrite LT. f_equal. f_equal. lia.
+      * rewrite qtag_snoc_other, upd_other by auto. apply (g_qlog x G); auto.
+    + left; auto.
+    + match goal with |- local_ok ?X _ => apply (next_op_ok X T) end. exact Np.
+  - (* Fin *)
+    destruct x; exact G.
+Qed.
+
+Theorem ireach_inv npr progs x : wf npr progs -> ireach npr progs x -> GInv x.
+Proof.
+  intros W. induction 1 as [|x t R IH].
+  - apply init_inv; exact W.
+  - apply linv_step; exact IH.
+Qed.
